@@ -407,6 +407,10 @@ class Circuit:
     def finalize(self) -> None:
         """A wrapper for _finalize()."""
         if not self._finalized:
+            # references by name (event destinations, filter control blocks, ...) are
+            # documented to be resolved during the finalization; doing it here and not only
+            # in run_forever() makes an explicit finalize() complete
+            self._resolver.resolve()
             self._finalize()
             self._finalized = True
 
